@@ -1244,13 +1244,23 @@ class DigitalWaveform(Generic[TDigitalState]):
         # Read the sample counts up front: when a waveform is appended to itself, its sample count
         # changes while the samples are being appended.
         sample_counts = [waveform.sample_count for waveform in waveforms]
+        # Read the samples up front too: growing the buffer can move or resize the memory that
+        # a waveform sharing it (such as this waveform itself) refers to.
+        samples = [
+            (
+                waveform.data.copy()
+                if np.may_share_memory(waveform._data, self._data)
+                else waveform.data
+            )
+            for waveform in waveforms
+        ]
         self._increase_capacity(sum(sample_counts))
 
         # Copy the samples before updating the timing, sample count, and extended properties so that
         # a failed copy (for example, into a read-only buffer) leaves the waveform unchanged.
         offset = self._start_index + self._sample_count
-        for waveform, sample_count in zip(waveforms, sample_counts):
-            self._data[offset : offset + sample_count] = waveform.data[:sample_count]
+        for source, sample_count in zip(samples, sample_counts):
+            self._data[offset : offset + sample_count] = source[:sample_count]
             offset += sample_count
 
         self._set_timing(new_timing)
